@@ -60,5 +60,29 @@ CHECKS["C14"] = dict(
     note="convergence required of single passes only; modified=False compared against deterministic proto bytes; faults injected by a raising LazyTensor and by patching onnx.checker/shape_inference in the harness process",
 )
 
+ENGINES.append({"name": "pathcontain", "path": "specs/extdata/PathContain.tla", "serves_properties": ["C10"],
+                "kind_free_text": "TLA+ model of a small POSIX file system (symlinks, hard links), posixpath join/normpath/abspath/dirname/realpath and the kernel's path walk, ExternalTensor's 3-layer containment check + open, the tensor access protocol and ir.load's base_dir derivation; PathContainMC.tla (_enum/_proto/_loaddev cfgs); harness/vfh/pathcontain.py, checks/c10.py"})
+CHECKS["C10"] = dict(
+    engine="pathcontain", design_ref="DESIGN.md §4 C10",
+    technique="TLC model checking of PathContain.tla + replay of every enumerated configuration and protocol history into onnx_ir + conformance of the environment model with the real kernel",
+    text="TLC proves FailClosed, NoOverReject(Plain), LoadBase and realpath/kernel agreement on every enumerated (file-system instance, base spelling, location string) configuration and NoByteBeforeCheck/BytesFromCheckedOpen on every access history of one tensor; each configuration is materialised on disk with canary bytes and read through every entry point of the real library (direct construction and ir.load with every path spelling) under an open() audit hook; accept/reject, returned bytes and opened files are compared with the specification's verdict; each protocol history is replayed step by step; the specification's kernel walk and realpath are themselves compared with the real OS on every configuration.",
+    note="small scope: 7 instances, 16-18 base spellings, locations of <=3 (quick) / <=4 (thorough) units, protocol depth 3/4; static file system (no TOCTOU), no link loops, POSIX, 16-byte tensors; quick tier reads missing-file configurations through 2 of 6 entry points (rotating)",
+)
+
+ENGINES.append({"name": "extlayout", "path": "specs/extdata/ExtLayout.tla", "serves_properties": ["C07"],
+  "kind_free_text": "pure TLA+ transcription of the external-data layout (Align, threshold split, raw and safetensors sharding, per-tensor placement, shard/index file names) with the property's formulas as predicates over (configuration, layout); ExtLayoutSave.tla = save protocol (snapshot; unload; write may fail; assign; serialize; restore in finally); ExtLayoutMC.tla enumeration, ExtLayoutTrace.tla evaluation of observed layouts; harness/vfh/extlayout.py"})
+CHECKS["C07"] = dict(
+  engine="extlayout", design_ref="DESIGN.md §4 C07, App. A.8",
+  technique="TLC enumeration of every (size tuple x threshold x alignment x align_threshold x shard limit x backend) with all layout formulas as invariants + TLC model checking of the save protocol with a failure at every step (Restored) + execution of the enumerated configurations on real models through ir.save/ir.save_safetensors and ir.load + TLC evaluation of every formula on the OBSERVED layout and comparison with the computed one",
+  text="TLC computes, for each configuration, the layout the code must produce (files, per-tensor location/offset/length, index file, names) and proves Order, Disjoint, InFile, Aligned, ExactlyOneShard, OversizeOnlyAlone and ThresholdRule on it; every selected configuration becomes a real model whose initializers have exactly those byte counts, cycling through array/lazy/packed/sub-byte/proto-backed/already-external/shared-object/zero-size kinds, main-graph and subgraph placements, dotted and nested destination names and max_workers; after save+load the observed locations, offsets, lengths, file sizes, byte/name/dtype/shape equality and the identity of every const_value (also when an injected failing tensor or an unwritable model path makes save raise) are handed to TLC, which evaluates each formula on the observation; a layout that differs from the prediction but satisfies every formula is recorded as a divergence.",
+  note="quick: all configurations with <=2 tensors + seeded sample of 3-tuples (30k executed); thorough: all <=3 + sample of 4-tuples (400k); byte equality computed in Python; safetensors order taken modulo the serializer's (dtype, name) order; already-external sources only in files other than the destination",
+)
+ENGINES.append({"name": "tensorrepr", "path": "specs/serde/TensorRepr.tla", "serves_properties": ["C04"],
+  "kind_free_text": "logical tensor [cls,n,dims,bit-pattern codes]; Pack/Unpack, onnx.proto storage fields (int32_data packed-byte / sign-extension rules, typed entries), external window, tofile destinations; every representation as Stored + derived bytes/values; element type tables as data; TensorReprMC.tla (+ _thorough, _tables cfgs); harness/vfh/tensorrepr.py"})
+CHECKS["C04"] = dict(engine="tensorrepr", design_ref="DESIGN.md §4 C04",
+  technique="TLC enumeration of (logical tensor x representation x tofile destination/writes) with Agree/PackLen/WriteInv/AgreeAll/Tables as invariants + one implementation test per TLC state and applicable element type + three-way comparison with onnx.numpy_helper/onnx.helper",
+  text="TLC enumerates every logical tensor of 10 element classes x n 0..9 x 3 shapes x 5 bit-pattern schemes, every applicable representation (array native/bits/sbits/ctor/list, packed, proto x storage field, external x offset kind x length, lazy x inner, torch) and 0..2 tofile() calls into 6 destination kinds; each printed state is built with the public API for every element type of the class and dtype, shape, size, nbytes, tobytes(), numpy() bit patterns, tofile() content and position, serialize_tensor() are compared with the values TLC derived; the same records are compared with the ONNX reference encoder/decoder; the element type tables are checked for mutual consistency in TLC and compared with onnx_ir._enums.",
+  note="quick: MaxWrites=1, ~154k states, all executed (~407k tests); thorough: MaxWrites=2; bit patterns only (no real-number semantics); f32 signalling NaN, trailing-NUL strings, non-seekable destinations out of scope")
+
 _PENDING = "check not built yet in this round (specification planned in DESIGN.md §4); not claimed until its TLA+ model and binding exist"
-NOT_APPLICABLE = {p: _PENDING for p in ["C02", "C03", "C04", "C07", "C08", "C09", "C10", "C11", "C12", "C15", "C16", "C17", "C18"]}
+NOT_APPLICABLE = {p: _PENDING for p in ["C02", "C03", "C08", "C09", "C11", "C12", "C15", "C16", "C17", "C18"]}
